@@ -1433,11 +1433,11 @@ Proof.
   destruct (bs_subset (o_cpuset n) (dn_rem st)) eqn:E; [|assumption]. apply dn_take_inv; auto.
 Qed.
 
-Lemma dn_loop2_inv nodes st e :
-  NoDup (map o_os nodes) -> dn_inv nodes st -> In (snd e) nodes -> dn_inv nodes (dn_loop2 st e).
+Lemma dn_loop2_inv nodes st n :
+  NoDup (map o_os nodes) -> dn_inv nodes st -> In n nodes -> dn_inv nodes (dn_loop2 st n).
 Proof.
-  intros ND I Hn. unfold dn_loop2. destruct e as [i n]. cbn [snd] in Hn. destruct (dn_done st); [assumption|].
-  destruct (mem i (dn_set st)); [assumption|]. apply dn_check_inv.
+  intros ND I Hn. unfold dn_loop2. destruct (dn_done st); [assumption|].
+  destruct (mem (o_os n) (dn_set st)); [assumption|]. apply dn_check_inv.
   destruct (bs_subset (o_cpuset n) (dn_rem st)) eqn:E; cbn [andb]; [|assumption].
   destruct (negb (bs_is_empty (o_cpuset n))); [|assumption]. apply dn_take_inv; auto.
 Qed.
@@ -1488,10 +1488,10 @@ Proof.
   { apply (fold_inv (dn_inv nodes) _ (fun x => In x nodes)); [|assumption|].
     - intros st x P Q. now apply dn_loop1_inv.
     - apply Forall_forall. intros x Hx. apply IN. now right. }
-  assert (I2 : dn_inv nodes (fold_left dn_loop2 (number_from 1 rest) (fold_left (dn_loop1 (o_subtype first)) rest (dn_take (DN bs_empty (t_root (m_topo s)) false) first)))).
-  { apply (fold_inv (dn_inv nodes) _ (fun e => In (snd e) nodes)); [|assumption|].
+  assert (I2 : dn_inv nodes (fold_left dn_loop2 rest (fold_left (dn_loop1 (o_subtype first)) rest (dn_take (DN bs_empty (t_root (m_topo s)) false) first)))).
+  { apply (fold_inv (dn_inv nodes) _ (fun x => In x nodes)); [|assumption|].
     - intros st x P Q. now apply dn_loop2_inv.
-    - pose proof (number_from_snd 1 rest) as F. rewrite Forall_forall in *. intros e He. apply IN. right. now apply F. }
+    - apply Forall_forall. intros x Hx. apply IN. now right. }
   destruct I2 as [A [_ C]]. split; assumption.
 Qed.
 
@@ -1688,46 +1688,4 @@ Proof.
   destruct (best_of _ _) as [[i v]|] eqn:B; [|discriminate].
   apply best_of_some in B. destruct B as [B _]. apply in_map_iff in B. destruct B as [i1 [E1 H1]].
   injection E1 as -> _. unfold tg_allok in K. rewrite Forall_forall in K. rewrite (K i H1). discriminate.
-Qed.
-
-(* ================================================================== *)
-(* R. default nodeset: the documented "already taken?" test            *)
-
-(* second loop as documented: skip a node that is already in the nodeset *)
-Definition dn_loop2_doc (st : dn_state) (e : N * obj) : dn_state :=
-  let (_, n) := e in
-  if dn_done st then st
-  else if mem (o_os n) (dn_set st) then st
-  else dn_check (if bs_subset (o_cpuset n) (dn_rem st) && negb (bs_is_empty (o_cpuset n))
-                 then dn_take st n else st).
-
-Definition default_nodeset_doc (s : mstate) (flags : N) : res bset :=
-  if negb (flags =? 0) then Err EINVAL
-  else match sort_by_os (numa_nodes (m_topo s)) with
-  | [] => Err EUB
-  | first :: rest =>
-    let st0 := dn_take (DN bs_empty (t_root (m_topo s)) false) first in
-    let st1 := fold_left (dn_loop1 (o_subtype first)) rest st0 in
-    let st2 := fold_left dn_loop2_doc (number_from 1 rest) st1 in
-    Ok (dn_set st2)
-  end.
-
-Lemma fold_left_ext_in {A S} (f g : S -> A -> S) l st :
-  (forall st x, In x l -> f st x = g st x) -> fold_left f l st = fold_left g l st.
-Proof.
-  revert st. induction l as [|x l IH]; intros st H; [reflexivity|].
-  cbn [fold_left]. rewrite (H st x (or_introl eq_refl)). apply IH. intros st' y Hy. apply H. now right.
-Qed.
-
-(* the code agrees with the documented algorithm when every NUMA node's
-   os_index is its position in the os_index-sorted array (0,1,2,...) *)
-Lemma default_nodeset_index_ok s flags :
-  (forall e, In e (number_from 0 (sort_by_os (numa_nodes (m_topo s)))) -> fst e = o_os (snd e)) ->
-  default_nodeset s flags = default_nodeset_doc s flags.
-Proof.
-  intros H. unfold default_nodeset, default_nodeset_doc. destruct (negb (flags =? 0)); [reflexivity|].
-  destruct (sort_by_os (numa_nodes (m_topo s))) as [|first rest]; [reflexivity|].
-  f_equal. f_equal. apply fold_left_ext_in. intros st [i n] Hin.
-  assert (E : i = o_os n) by (apply (H (i, n)); cbn [number_from]; right; exact Hin).
-  unfold dn_loop2, dn_loop2_doc. now rewrite E.
 Qed.
